@@ -265,7 +265,7 @@ func (t *Thread) end(args []Value, err error, exception interface{}) {
 	t.status = ThreadDead
 	t.caller = nil
 	if exception == nil {
-		err = t.cleanupCloseStack(nil, 0, err) // TODO: not nil
+		err, exception = t.closePending(err)
 	}
 	// Otherwise the thread ends because its runtime context was terminated:
 	// its pending to-be-closed variables are discarded like CallContext does,
@@ -276,6 +276,22 @@ func (t *Thread) end(args []Value, err error, exception interface{}) {
 	// runtime state any more.
 	t.ReleaseBytes(2 << 10)
 	caller.sendResumeValues(args, err, exception) // The goroutine will terminate after this
+}
+
+// closePending runs the pending to-be-closed variables of a thread that is
+// ending.  It is called from the deferred function of the thread's goroutine,
+// where nothing recovers a panic any more: if a handler is interrupted (the
+// runtime context is terminated while it runs), the remaining handlers are
+// discarded and the exception is returned so that it is handed to the resuming
+// thread, like a termination of the thread's body.
+func (t *Thread) closePending(err error) (cerr error, exception interface{}) {
+	defer func() {
+		if exception = recover(); exception != nil {
+			t.closeStack.truncate(0)
+			cerr = err
+		}
+	}()
+	return t.cleanupCloseStack(nil, 0, err), nil // TODO: not nil
 }
 
 func (t *Thread) call(c Callable, args []Value, next Cont) error {
